@@ -599,7 +599,11 @@ func (o *OracleC13) onceProbes(c *Chain, b *BlockCtx, v *View) []*Violation {
 			}
 			if err != nil {
 				cls := "refund-unavailable"
-				if p.Info.FromBond {
+				if d := c.Facts["dispute-escrow-short"]; d != "" && insufficient(err) {
+					// the dispute escrow was left short earlier in this run by an open finding (more stake recorded, and
+					// later returned, than was moved in): the refund failing for funds is its consequence
+					cls += ":escrow-short:" + d
+				} else if p.Info.FromBond {
 					cls += ":paid-from-stake"
 				}
 				if d.D.DisputeRound > 1 {
